@@ -20,7 +20,7 @@ RULE = ('Hypothesis-generated schedules: 1-5 coroutine scripts (finite or cyclic
         'arithmetic; per frame the executed (coroutine, step) multiset must equal the model\'s and coroutines '
         'that stay runnable keep their relative order. Thorough tier additionally ENUMERATES two finite '
         'sub-spaces completely (see exhaustive_subspaces). '
-        'In ~15% of the cases the coroutines are multiplied up to 64-150. '
+        'In ~15% of the cases the coroutines are multiplied up to 64-150. A third of the coroutines STOP THEMSELVES from inside their own step (kill of the own generator, then a yield) instead of returning: they are never resumed and every other runnable coroutine still gets exactly its one step, in that frame and afterwards. '
         'Non-trivial = >= 2 coroutines whose waits overlap in '
         'time with different deadlines and at least one frame in which the wait queue empties while another '
         'coroutine waits again later. Distinct = sha1 of canonical JSON (enumerated cases are distinct by '
@@ -59,8 +59,10 @@ def decode_start(p):
 
 def strategy():
     # num: how the coroutine writes its waits - 0/1 plain int/float, 2 fractions.Fraction, 3 a float subclass
-    co = st.tuples(worldops.packed(2 * 5 * 10 ** 5), worldops.packed(1200)).map(
-        lambda t: {'script': decode_script(t[0]), 'start': decode_start(t[1] % 300), 'num': t[1] // 300})
+    # stop: 1 = instead of returning (or, cyclic, after two rounds) the coroutine stops ITSELF from inside its step
+    co = st.tuples(worldops.packed(2 * 5 * 10 ** 5), worldops.packed(3600)).map(
+        lambda t: {'script': decode_script(t[0]), 'start': decode_start(t[1] % 300), 'num': t[1] // 300 % 4,
+                   'stop': int(t[1] // 1200 == 2)})
     return st.fixed_dictionaries({
         'cos': st.lists(co, min_size=1, max_size=5),
         # kill immediately followed by start (between two frames) of a running coroutine: it carries on, a waiting
@@ -96,6 +98,10 @@ def check_schedule(cos, dts, restarts=(), frac_dt=False):
             outside_start[i] = c['start'][1]
     started = [False] * n
 
+    def stop_at(i):
+        sc = cos[i]['script']
+        return 2 * len(sc['yields']) + 1 if sc['cyclic'] else len(sc['yields'])
+
     def body(i):
         ys = cos[i]['script']['yields']
         cyclic = cos[i]['script']['cyclic']
@@ -107,6 +113,13 @@ def check_schedule(cos, dts, restarts=(), frac_dt=False):
                     started[k] = True
                     started_inside.append(k)
                     proc.start(gens[k])
+            if cos[i].get('stop') and step >= stop_at(i):
+                # the coroutine stops itself: whatever it yields afterwards, it is never resumed - and every other
+                # runnable coroutine still gets exactly its one step in this frame and in the following ones
+                proc.kill(gens[i])
+                yield ys[0]
+                log.append((i, 'resumed after it stopped itself'))
+                return i
             if step >= len(ys) and not cyclic:
                 return i
             y = ys[step % len(ys)]
@@ -133,6 +146,12 @@ def check_schedule(cos, dts, restarts=(), frac_dt=False):
         cyclic = cos[i]['script']['cyclic']
         s = mstep[i]
         rec = (i, s)
+        if cos[i].get('stop') and s >= stop_at(i):
+            state[i] = DONE
+            facts['coroutine_stopped_itself'] += 1
+            if any(state[j] in (RUN, NEW) or j in pending_must for j in range(n) if j != i):
+                facts['stopped_itself_with_other_runnable_coroutines'] += 1
+            return rec
         if s >= len(ys) and not cyclic:
             state[i] = DONE
             return rec
@@ -146,6 +165,7 @@ def check_schedule(cos, dts, restarts=(), frac_dt=False):
         return rec
 
     facts = collections.Counter()
+    pending_must = set()
     prev_order = []
     for f, dt in enumerate(dts):
         for i in range(n):
@@ -190,8 +210,11 @@ def check_schedule(cos, dts, restarts=(), frac_dt=False):
         new_inside_prev = [i for i in range(n) if state[i] == 'new_inside']
         must += new_inside_prev
         expected = collections.Counter()
+        pending_must = set(must)
         for i in must:
+            pending_must.discard(i)
             expected[advance_model(i)] += 1
+        pending_must = set()
         got = collections.Counter(log)
         # coroutines started from inside this frame: 0 or 1 step now, exactly one next frame
         for k in started_inside:
